@@ -102,12 +102,42 @@ Definition wf_question_b (q : question) : bool :=
 Definition service_eqb (a b : service) : bool :=
   match a, b with Proxy, Proxy | Auth, Auth => true | _, _ => false end.
 
+(* ---------- one execution of a (wrapper, key) at a time, from the execution log ----------
+   The log is what the inner provider (or fn) itself recorded: begin / end of each execution, in
+   the order they happened. The clause is independent of the group's map and of who the driver
+   or the model believes leads: it only needs each execution's key, i.e. the key of the caller
+   whose call it is. *)
+Fixpoint key_of {R} (tr : list (event R)) (t : tid) : option str :=
+  match tr with
+  | [] => None
+  | Enter t' k :: tr' => if Nat.eqb t' t then Some k else key_of tr' t
+  | _ :: tr' => key_of tr' t
+  end.
+Definition same_key (ko : tid -> option str) (a b : tid) : bool := option_eqb str_eqb (ko a) (ko b).
+Definition exec_step (ko : tid -> option str) (st : list tid * bool) (e : logev) : list tid * bool :=
+  match e with
+  | LBegin t => (t :: fst st, snd st && negb (existsb (fun t' => same_key ko t' t) (fst st)))
+  | LEnd t => (filter (fun t' => negb (Nat.eqb t' t)) (fst st), snd st)
+  end.
+Definition exec_walk (ko : tid -> option str) (log : list logev) : list tid * bool :=
+  fold_left (exec_step ko) log ([], true).
+Definition exec_ok (ko : tid -> option str) (log : list logev) : bool := snd (exec_walk ko log).
+
+Definition logev_eqb (a b : logev) : bool :=
+  match a, b with
+  | LBegin x, LBegin y | LEnd x, LEnd y => Nat.eqb x y
+  | _, _ => false
+  end.
+Definition log_tid (e : logev) : tid := match e with LBegin t | LEnd t => t end.
+
 (* ---------- cases ---------- *)
 Record gobs := mkGObs {
   go_tid : nat; go_returned : bool; go_ran : bool; go_val : N; go_err : N; go_cnt : nat
 }.
 Record wobs := mkWObs {
-  wo_tid : nat; wo_returned : bool; wo_ran : bool; wo_res : result; wo_sess : option session;
+  wo_tid : nat;
+  wo_wid : nat;             (* the wrapper object the caller called *)
+  wo_returned : bool; wo_ran : bool; wo_res : result; wo_sess : option session;
   wo_key : option str       (* composite key of the call this caller created, read from the group's map *)
 }.
 
@@ -117,14 +147,16 @@ Record wobs := mkWObs {
 Record sobs := mkSObs { so_key : str; so_ran : bool; so_val : N; so_cnt : nat }.
 
 Inductive case :=
-| CGen (tr : list (event gres)) (stray : nat) (obs : list gobs)
+| CGen (tr : list (event gres)) (stray : nat) (log : list logev) (obs : list gobs)
     (* real singleflight.Group: the event list as issued/observed, the number of fn executions
-       that began while no caller was entering, and per caller: did it return, did its own fn
-       run, the (val, err) and count it got *)
-| CWrap (svc : service) (tr : list wevent) (stray : nat) (obs : list wobs)
+       that began while no caller was entering, fn's own begin/end log, and per caller: did it
+       return, did its own fn run, the (val, err) and count it got *)
+| CWrap (svc : service) (tr : list mevent) (stray : nat) (log : list logev) (obs : list wobs)
+    (* one or several real SingleFlightProvider objects of the service (built as the service
+       builds them: one per upstream / per provider), each around its own scripted inner
+       provider: events are tagged with the wrapper object they happened at; the inner providers'
+       begin/end log; per caller the (value, error) it got and its own session record after *)
 | CStorm (max_overlap : nat) (execs : list (N * str)) (obs : list sobs).
-    (* real SingleFlightProvider of the service around a scripted inner provider: per caller
-       the (value, error) it got and its own session record after the call *)
 
 Fixpoint entered {R} (tr : list (event R)) : list tid :=
   match tr with
@@ -159,12 +191,19 @@ Fixpoint questions (tr : list wevent) : list question :=
   | _ :: tr' => questions tr'
   end.
 
-(* property clause: callers that shared an execution asked about the same subject *)
+(* All clauses below are stated on the events of ONE wrapper object (the projection of the
+   deployment's event list): "shares an execution" is only ever recognised between callers of the
+   same wrapper object, so a merge across wrapper objects shows up as a caller that should have
+   run (generic clause) and did not. *)
+
+(* property clause: callers that shared an execution asked the same endpoint about the same
+   subject — the token, or the e-mail and group set; for the proxy's ValidateSessionState /
+   RefreshSession the subject INCLUDES the allowed groups the answer depends on *)
 Definition subject_clause (tr : list wevent) (t : tid) : bool :=
   match spec_leader (map erase tr) t with
   | Some l =>
       match question_of tr t, question_of tr l with
-      | Some q, Some ql => subject_eqb (subject_of q) (subject_of ql)
+      | Some q, Some ql => subject_eqb (subject_of q) (subject_of ql) && strs_eqb (allowed_of q) (allowed_of ql)
       | _, _ => false
       end
   | None => false
@@ -174,6 +213,17 @@ Definition guard_clause (tr : list wevent) (t : tid) : bool :=
   | Some l =>
       match question_of tr t, question_of tr l with
       | Some q, Some ql => guard q && guard ql
+      | _, _ => true
+      end
+  | None => true
+  end.
+(* the caller and the caller whose execution it shares passed the same allowed groups (in a
+   deployment: always, a wrapper object serves one upstream) *)
+Definition allowed_clause (tr : list wevent) (t : tid) : bool :=
+  match spec_leader (map erase tr) t with
+  | Some l =>
+      match question_of tr t, question_of tr l with
+      | Some q, Some ql => strs_eqb (allowed_of q) (allowed_of ql)
       | _, _ => true
       end
   | None => true
@@ -210,68 +260,105 @@ Definition has_session_question (tr : list wevent) (t : tid) : bool :=
 
 (* every failing clause of caller t carries the signature of a listed finding *)
 Definition clause_failures_explained (tr : list wevent) (t : tid) (after : option session) : bool :=
-  (subject_clause tr t || negb (guard_clause tr t)) &&
+  (subject_clause tr t || negb (guard_clause tr t) || negb (allowed_clause tr t)) &&
   (session_clause tr t after || (is_follower tr t && has_session_question tr t)).
+
+(* wrapper objects that occur, and where a caller called *)
+Fixpoint nodup_nat (l : list nat) : list nat :=
+  match l with
+  | [] => []
+  | x :: l' => if mem_nat x l' then nodup_nat l' else x :: nodup_nat l'
+  end.
+Definition wids (tr : list mevent) : list nat := nodup_nat (map fst tr).
+Fixpoint wid_of (tr : list mevent) (t : tid) : option nat :=
+  match tr with
+  | [] => None
+  | (a, WEnter t' _) :: tr' => if Nat.eqb t' t then Some a else wid_of tr' t
+  | _ :: tr' => wid_of tr' t
+  end.
+Definition project_log (a : nat) (tr : list mevent) (log : list logev) : list logev :=
+  filter (fun e => option_eqb Nat.eqb (wid_of tr (log_tid e)) (Some a)) log.
 
 Definition judge (c : case) : N :=
   match c with
-  | CGen tr stray obs =>
+  | CGen tr stray log obs =>
       let observed := map go_tid obs in
       let complete := forallb (fun t => mem_nat t observed) (entered tr) && forallb go_returned obs &&
                       Nat.eqb stray 0 in
       let model_ok :=
-        match run init tr with
-        | Some s => forallb (fun o => outcome_eqb gres_eqb (model_outcome s (go_tid o))
-                                        (Some (go_ran o, (go_val o, go_err o), go_cnt o)) true) obs
+        match run_log init [] tr with
+        | Some (s, l) => forallb (fun o => outcome_eqb gres_eqb (model_outcome s (go_tid o))
+                                        (Some (go_ran o, (go_val o, go_err o), go_cnt o)) true) obs &&
+                         list_eqb logev_eqb l log
         | None => false
         end in
       let holds :=
         complete &&
+        exec_ok (key_of tr) log &&
         forallb (fun o => outcome_eqb gres_eqb (spec_outcome tr (go_tid o))
                             (Some (go_ran o, (go_val o, go_err o), go_cnt o)) true) obs in
       code (negb (model_ok && Nat.eqb stray 0)) holds 0
-  | CWrap svc tr stray obs =>
-      let observed := map wo_tid obs in
-      let etr := map erase tr in
-      let complete := forallb (fun t => mem_nat t observed) (entered etr) && forallb wo_returned obs &&
-                      Nat.eqb stray 0 in
-      let wf := forallb (fun q => wf_question_b q && service_eqb (service_of (q_endpoint q)) svc) (questions tr) in
+  | CWrap svc tr stray log obs =>
+      let pr (o : wobs) := project (wo_wid o) tr in
+      let complete :=
+        forallb (fun ae => match snd ae with
+                           | WEnter t _ => existsb (fun o => Nat.eqb (wo_tid o) t && Nat.eqb (wo_wid o) (fst ae)) obs
+                           | _ => true
+                           end) tr &&
+        forallb wo_returned obs && Nat.eqb stray 0 in
+      let wf := forallb (fun q => wf_question_b q && service_eqb (service_of (q_endpoint q)) svc)
+                        (questions (map snd tr)) in
       let model_ok :=
         wf && Nat.eqb stray 0 &&
-        match wrun winit tr with
-        | Some w => forallb (fun o => outcome_eqb result_eqb (model_outcome (w_g w) (wo_tid o))
-                                        (Some (wo_ran o, wo_res o, 0%nat)) false &&
-                                      option_eqb session_eqb (wsession w (wo_tid o)) (wo_sess o) &&
-                                      match wo_key o with
-                                      | Some k => wo_ran o &&
-                                                  match callof (w_g w) (wo_tid o) with
-                                                  | Some cl => str_eqb (c_key cl) k
-                                                  | None => false
-                                                  end
-                                      | None => negb (wo_ran o)
-                                      end) obs
-        | None => false
-        end in
+        forallb (fun o =>
+          match wrun winit (pr o) with
+          | Some w => outcome_eqb result_eqb (model_outcome (w_g w) (wo_tid o))
+                                  (Some (wo_ran o, wo_res o, 0%nat)) false &&
+                      option_eqb session_eqb (wsession w (wo_tid o)) (wo_sess o) &&
+                      match wo_key o with
+                      | Some k => wo_ran o &&
+                                  match callof (w_g w) (wo_tid o) with
+                                  | Some cl => str_eqb (c_key cl) k
+                                  | None => false
+                                  end
+                      | None => negb (wo_ran o)
+                      end
+          | None => false
+          end) obs &&
+        forallb (fun a =>
+          match run_log init [] (map erase (project a tr)) with
+          | Some (_, l) => list_eqb logev_eqb l (project_log a tr log)
+          | None => false
+          end) (wids tr) &&
+        Nat.eqb (length log) (length (flat_map (fun a => project_log a tr log) (wids tr))) in
+      let exec_one :=
+        forallb (fun a => exec_ok (key_of (map erase (project a tr))) (project_log a tr log)) (wids tr) in
       let gen_ok :=
-        complete &&
-        forallb (fun o => outcome_eqb result_eqb (spec_outcome etr (wo_tid o))
+        complete && exec_one &&
+        forallb (fun o => outcome_eqb result_eqb (spec_outcome (map erase (pr o)) (wo_tid o))
                             (Some (wo_ran o, wo_res o, 0%nat)) false) obs in
-      let subj_ok := forallb (fun o => subject_clause tr (wo_tid o)) obs in
-      let sess_ok := forallb (fun o => session_clause tr (wo_tid o) (wo_sess o)) obs in
+      let subj_ok := forallb (fun o => subject_clause (pr o) (wo_tid o)) obs in
+      let sess_ok := forallb (fun o => session_clause (pr o) (wo_tid o) (wo_sess o)) obs in
       (* Attribution. A falsified monitor is attributed to the known findings iff EVERY failing
          clause of EVERY caller carries the signature of a listed finding:
            - a failing subject clause: the caller's or its leader's question violates the guard
-             (':' in the e-mail, ',' in a group name, group list [""])            -> C16-K2;
+             (':' in the e-mail, ',' in a group name, group list [""])            -> C16-K2,
+             or the two passed different allowed groups to ONE wrapper object
+             (the key omits them)                                                  -> C16-K3;
            - a failing session clause: the caller is a merged follower of a session-keyed call
              (the leader's own record must satisfy the clause)                     -> C16-K1;
-           - the generic coalescing clause has no known finding: it must hold.
-         One schedule may exhibit both findings at once; the reported code is the smallest. Any
+           - the generic coalescing clause (who runs, results, counts, one execution per
+             (wrapper, key) at a time, nothing shared across wrapper objects) has no known
+             finding: it must hold.
+         One schedule may exhibit several findings at once; the reported code is the smallest. Any
          failing clause without a signature leaves the case unattributed (a VIOLATION). *)
-      let explained := forallb (fun o => clause_failures_explained tr (wo_tid o) (wo_sess o)) obs in
+      let explained := forallb (fun o => clause_failures_explained (pr o) (wo_tid o) (wo_sess o)) obs in
       let known : N :=
         if gen_ok && explained then
           (if negb sess_ok then 1           (* C16-K1: merged caller's record stale *)
-           else if negb subj_ok then 2      (* C16-K2: ':' / ',' key collision *)
+           else if existsb (fun o => negb (subject_clause (pr o) (wo_tid o)) && negb (guard_clause (pr o) (wo_tid o))) obs
+                then 2                      (* C16-K2: ':' / ',' key collision *)
+           else if negb subj_ok then 3      (* C16-K3: allowed groups not in the key *)
            else 0)
         else 0 in
       code (negb model_ok) (gen_ok && subj_ok && sess_ok) known
@@ -310,12 +397,31 @@ Definition features {R} (tr : list (event R)) : N :=
 Definition update_is_empty (u : update) : bool :=
   match u with mkUpdate None None None None None => true | _ => false end.
 
+(* the deployment's events as ONE generic event list over keys tagged with the wrapper object *)
+Definition tag_erase (ae : mevent) : event result :=
+  match erase (snd ae) with
+  | Enter t k => Enter t (N.of_nat (fst ae) :: k)
+  | e => e
+  end.
+Fixpoint distinct_methods (tr : list mevent) (seen : list str) : nat :=
+  match tr with
+  | [] => length seen
+  | (_, WEnter _ q) :: tr' =>
+      let n := endpoint_name (q_endpoint q) in
+      if mem_str n seen then distinct_methods tr' seen else distinct_methods tr' (n :: seen)
+  | _ :: tr' => distinct_methods tr' seen
+  end.
+
 Definition classify (c : case) : N :=
   match c with
-  | CGen tr _ _ => features tr
-  | CStorm _ execs obs => 200 + (if Nat.ltb (length execs) (length obs) then 1 else 0)
-  | CWrap svc tr _ obs =>
-      100 + (match svc with Proxy => 0 | Auth => 50 end) + features (map erase tr) +
-      (if forallb (fun o => subject_clause tr (wo_tid o)) obs then 0 else 8) +
-      (if forallb (fun o => session_clause tr (wo_tid o) (wo_sess o)) obs then 0 else 16)
+  | CGen tr _ _ _ => features tr
+  | CStorm _ execs obs => 900 + (if Nat.ltb (length execs) (length obs) then 1 else 0)
+  | CWrap svc tr _ _ obs =>
+      let pr (o : wobs) := project (wo_wid o) tr in
+      100 + (match svc with Proxy => 0 | Auth => 50 end) +
+      (if Nat.leb 2 (length (wids tr)) then 200 else 0) +          (* several wrapper objects *)
+      (if Nat.leb 2 (distinct_methods tr []) then 400 else 0) +    (* several methods interleaved *)
+      features (map tag_erase tr) +
+      (if forallb (fun o => subject_clause (pr o) (wo_tid o)) obs then 0 else 8) +
+      (if forallb (fun o => session_clause (pr o) (wo_tid o) (wo_sess o)) obs then 0 else 16)
   end.
